@@ -835,6 +835,9 @@ pub fn cases(seed: u64, tier: Tier, client: bool) -> Cases {
         crate::ops::emit::add(&mut cs, &mut rng, tier);
     } else {
         // ---- client
+        // which decode function the generated client names for a return type (empty / value / 204-aware / binary /
+        // optional binary): the generated source for seeded definitions against Model/Emit.lean and the types
+        crate::ops::emit::add(&mut cs, &mut rng, tier);
         let kinds = [Kind::Empty, Kind::Ser, Kind::DefSer, Kind::Bin, Kind::OptBin];
         let ccts: [Option<&str>; 8] = [Some("application/json"), Some("application/octet-stream"), Some("application/json; charset=utf-8"), Some("APPLICATION/JSON"), Some("application/x-jackson-smile"), Some("text/plain"), None, Some("garbage")];
         for (doc, ty) in json_docs().into_iter().chain(vec![("{\"a\":1,\"zz\":[2]}", 1u8), ("null", 0), ("\"x\"", 0), ("{\"a\":\"s\"}", 1)]) {
